@@ -185,6 +185,7 @@ static void rt_case(uint64_t idx, void *ctx)
 int main(int argc, char **argv)
 {
     mc_init("C12", argc, argv);
+    libast_debug_level = (unsigned) mc_dlevel();        /* --dlevel=N: the whole run at runtime debug level N (default 0) */
     int N = (int) mc_arg_int("N", mc_thorough() ? 8 : 5);
     if (N > 10) N = 10;
     mc_info("alphabet", "all strings of length <= %d over {a,b,space,',','\"','\\'','\\\\',tab} x delimiter sets {whitespace, \",\", \", \"}; word indices 0..num_words+2; join/split round trips of <= 4 plain tokens", N);
